@@ -427,7 +427,7 @@ def check_case(case, acc):
                 problems.append(("whitespace", f"{s!r} accepted but {v!r} raised {type(e).__name__}"))
     # no token inside a call or a subscript is ignored: another literal / name in its place gives another model
     # (a removed term may legitimately differ without trace; what a group term of a group term means is not defined)
-    if len(toks) <= 12 and not any(t[0] == "-" for t in toks) and sum(t[0] == "|" for t in toks) <= 1:
+    if len(toks) <= 40 and not any(t[0] == "-" for t in toks) and sum(t[0] == "|" for t in toks) <= 1:
         inside = set()
 
         def mark(n):
@@ -445,8 +445,8 @@ def check_case(case, acc):
             if t[0] not in REPLACEMENTS or j not in inside:
                 continue
             for other in REPLACEMENTS[t[0]]:
-                if other == t[1]:
-                    continue
+                if other == t[1] or (t[0] == "STR" and other[1:-1] == t[2]):
+                    continue  # (the same literal in the other quote style is the same level)
                 v = " ".join(other if i == j else u[1] for i, u in enumerate(toks))
                 acc.calls += 1
                 try:
